@@ -432,3 +432,39 @@ def check_identifier_fields_verbatim(ctx, rule):
             else:
                 ctx.ok(rule, inst, 'integers read from the wire reach the constructor unchanged', ctx.where(B, bb))
     return n
+
+
+# ------------------------------------------------------------------- scalars verbatim ----
+def check_scalars_verbatim(ctx, rule):
+    """A number read from the wire becomes the value of the term unchanged: the operand of every Float(..) / Integer(..)
+    built in a parser is the value a nom number parser returned (or a from_str / from_be_bytes of it for the text and
+    big forms), possibly widened - not the result of further arithmetic or of a "normalising" helper."""
+    from .ranges import canon
+    from .families import describe
+    P = ctx.P
+    n = 0
+    for p in sorted(q for q in ctx.F.bodies if q.startswith(DEC + 'parse_') and ctx.F.bodies[q]['kind'] == 'Fn'):
+        B = P.B(p)
+        for bb, j, st in B.stmts():
+            if not (st['k'] == '=' and st['rv']['k'] == 'agg' and st['rv'].get('adt') in (OWNED, BORROWED) and st['rv'].get('var') in ('Float', 'Integer')):
+                continue
+            if not (0 in B.derived_locals([st['pl']['l']]) or st['pl']['l'] == 0):
+                continue
+            op = st['rv']['ops'][0]
+            c = canon(B, op)
+            cur = c
+            while isinstance(cur, tuple) and cur and cur[0] == 'cast':
+                cur = cur[-1] if isinstance(cur[-1], tuple) else cur[1]
+            n += 1
+            inst = '%s:%s' % (p.rsplit('::', 1)[1], st['rv']['var'])
+            txt = str(cur)
+            from_wire = isinstance(cur, tuple) and cur and cur[0] == 'place' and 'nom::number::' in txt
+            parsed_text = 'from_str' in txt or '::parse' in txt
+            if from_wire or parsed_text:
+                ctx.ok(rule, inst, 'value = %s' % describe(B, c), ctx.where(B, bb))
+            elif isinstance(cur, tuple) and cur and cur[0] in ('bin', 'un', 'call'):
+                ctx.bad(rule, inst, 'the %s built by %s is not the number read from the wire but %s: some wire values decode to a different number / bit pattern (and re-encode to different bytes)'
+                        % (st['rv']['var'], p.rsplit('::', 1)[1], describe(B, c)), ctx.where(B, bb), key='PROV:%s:%s-not-verbatim' % (p, st['rv']['var']))
+            else:
+                ctx.undecided(rule, inst, 'origin of the value not recognised: %s' % describe(B, c))
+    return n
